@@ -2,4 +2,4 @@
 # regression: every seeded change against every check, isolated from /repo (scratch worktrees + JP_REPO)
 cd "$(dirname "$0")/.."
 bin/setup.sh >/dev/null 2>&1
-for d in seeded/*/; do s=$(basename $d); echo "######## $s"; python3 bin/seedtest.py seeded/$s --isolated "$@" 2>&1 | grep -E "DETECTED|rc=1" | cut -c1-200; done
+for d in seeded/*/; do s=$(basename $d); echo "######## $s"; python3 bin/seedtest.py seeded/$s --isolated "$@" 2>&1 | grep -E "DETECTED|rc=1" | cut -c1-200; cp seeded/$s/result.json /verif/.work/result_$s.json; done
